@@ -19,6 +19,8 @@ def call_ops(rng, kind, path, base_idx):
         return ["appendfile " + p, "hwrite %d %s" % (base_idx, vfx.hexs(b"+")), "hdrop %d" % base_idx]
     if kind == "open_read":
         return ["openfile " + p, "hreadtoend %d" % base_idx, "hdrop %d" % base_idx]
+    if kind == "set_mtime":
+        return ["setmtime %s 4242" % p]
     return ["%s %s" % ({"remove_file": "removefile", "remove_dir": "removedir", "exists": "exists",
                         "metadata": "metadata", "read_dir": "readdir"}[kind], p)]
 
@@ -61,6 +63,23 @@ def gen_progs(rng, tier):
                 ops += call_ops(rng, k, p, len(ops))
             threads.append(ops)
         progs.append(conclib.Prog("c16d%d" % i, CFG, setup, threads, "explore 6000"))
+    # the frame proper: every ordered pair of calls on the same entry, on a directory and its child, on a child and its
+    # directory - from a state in which all of them can succeed (/a a directory, /a/f a file, /a/b a directory)
+    pair_kinds = KINDS
+    pair_setup = ["createdir 0:j61", "createfile 0:j612f66", "hdrop 1001", "createdir 0:j612f62"]
+    relations = [("a/f", "a/f"), ("a", "a/f"), ("a/f", "a"), ("a/b", "a/b"), ("a", "a/b")]
+    k = 0
+    for (p0, p1) in relations:
+        for k0 in pair_kinds:
+            for k1 in pair_kinds:
+                if k0 in ("exists", "metadata") and k1 in ("exists", "metadata"):
+                    continue
+                if tier == "quick" and (k + len(p0)) % 3:      # a third of the frame per quick run (rotating with the seed)
+                    k += 1
+                    continue
+                k += 1
+                threads = [call_ops(rng, k0, p0, 0), call_ops(rng, k1, p1, 0)]
+                progs.append(conclib.Prog("c16p_%s_%s_%s_%s" % (k0, p0.replace("/", "-"), k1, p1.replace("/", "-")), CFG, pair_setup, threads, "explore 4000"))
     n = 40 if tier == "quick" else 400
     for i in range(n):
         nthreads = 2 if (tier == "quick" or rng.random() < 0.7) else 3
@@ -76,7 +95,9 @@ def gen_progs(rng, tier):
 
 RULE = ("all interleavings at lock-acquisition granularity (depth-first enumeration of the scheduling choices at the "
         "verif-hooks yield points, one before every RwLock acquisition of MemoryFS) of 8 directed programs around the "
-        "check-then-act windows and of random programs of 2-3 threads x 1-2 calls drawn from create_dir, create_file+write, "
+        "check-then-act windows, of the pair frame (every ordered pair of the nine calls on the same "
+        "entry, on a directory and its child, on a child and its directory; a third of the frame in the quick tier, all of "
+        "it in the thorough tier) and of random programs of 2-3 threads x 1-2 calls drawn from create_dir, create_file+write, "
         "append, remove_file, remove_dir, exists, metadata, read_dir, open+read on the overlapping paths /a, /a/b, /a/f, /f; "
         "for every schedule: results and final snapshot must be among those of the sequential interleavings of the same calls "
         "run on the real MemoryFS (results compared as Ok values / error), no panic, no deadlock; every explored schedule "
